@@ -94,6 +94,9 @@ def points_grammar(P, at_query, with_prep):
   o[-1, -1] = None
   g.append(('object-with-None', o))
   g.append(('complex', P.astype(complex) + 1j))
+  # text that reads like numbers is still text
+  g.append(('numeric-text', np.round(P, 3).astype(str)))
+  g.append(('numeric-bytes', np.round(P, 3).astype('S')))
   g.append(('ragged', [[1.0] * d, [1.0] * (d + 1)]))
   g.append(('None', None))
   if at_query:
@@ -135,6 +138,8 @@ def tuples_grammar(T, at_query, with_prep, t):
   o[-1, -1, -1] = None
   g.append(('object-with-None', o))
   g.append(('complex', T.astype(complex) + 1j))
+  g.append(('numeric-text', np.round(T, 3).astype(str)))
+  g.append(('numeric-bytes', np.round(T, 3).astype('S')))
   g.append(('ragged', [[[1.0] * d] * t, [[1.0] * d] * (t + 1)]))
   g.append(('None', None))
   if at_query:
